@@ -204,6 +204,18 @@ struct Fork {
     remaining: usize,
 }
 
+/// A host-side checkpoint of every scanner instance together with the observers' view of them.
+struct Snap {
+    main: Scn,
+    idle_twin: Scn,
+    solo: Vec<Scn>,
+    twin: Scn,
+    fresh: Option<Scn>,
+    m_cc: Cc14Model,
+    m_pn: PnModel,
+    obs: PollObs,
+}
+
 pub struct RunResult {
     pub violations: Vec<Violation>,
     pub probes: Probes,
@@ -224,6 +236,8 @@ pub struct Exec<'a> {
     twin: Scn,
     fresh: Option<Scn>,
     forks: Vec<Fork>,
+    snap: Option<Box<Snap>>,
+    restored: bool,
     m_cc: Cc14Model,
     m_pn: PnModel,
     obs: PollObs,
@@ -297,6 +311,8 @@ impl<'a> Exec<'a> {
             twin,
             fresh: None,
             forks: Vec::new(),
+            snap: None,
+            restored: false,
             m_cc: Cc14Model::default(),
             m_pn: PnModel::default(),
             obs: PollObs::new(timeout),
@@ -477,6 +493,8 @@ impl<'a> Exec<'a> {
             Ev::EncCc14 { g, ch, cn, val, fac } => self.enc_cc14(*g, *ch, *cn, *val, *fac),
             Ev::EncPn { g, ch, num, val, reg, kind, order, fac } => self.enc_pn(*g, *ch, *num, *val, *reg, *kind, *order, *fac),
             Ev::Fork { k, burst } => self.do_fork(*k, burst),
+            Ev::Snapshot => self.do_snapshot(),
+            Ev::Restore => self.do_restore(),
         }
     }
 
@@ -667,6 +685,62 @@ impl<'a> Exec<'a> {
         Ok(())
     }
 
+    fn do_snapshot(&mut self) -> Result<(), Panicked> {
+        self.p.snapshots += 1;
+        self.sig.b(0x32);
+        let (m, solo, twin, fresh) = (&self.main, &self.solo, &self.twin, &self.fresh);
+        let mut solo_copy: Vec<Scn> = Vec::with_capacity(16); // harness bookkeeping: allocated outside the region
+        let (main, idle_twin, twin, fresh) = api(L::scanner_copy, || {
+            for s in solo.iter() {
+                solo_copy.push(*s);
+            }
+            (*m, *m, *twin, *fresh)
+        })?;
+        let solo = solo_copy;
+        self.snap = Some(Box::new(Snap { main, idle_twin, solo, twin, fresh, m_cc: self.m_cc.clone(), m_pn: self.m_pn.clone(), obs: self.obs.clone() }));
+        Ok(())
+    }
+
+    /// Restores the last checkpoint into every instance ("crash and restart from durable state";
+    /// the clock has kept running). From here on all observers judge the restored instances.
+    fn do_restore(&mut self) -> Result<(), Panicked> {
+        let Some(snap) = self.snap.as_ref() else { return Ok(()) };
+        self.p.restores += 1;
+        self.sig.b(0x33);
+        // an idle copy must not have moved while the original was being driven
+        let eq = api(L::scanner_eq, || snap.main.cc == snap.idle_twin.cc && snap.main.pn == snap.idle_twin.pn && snap.main.po == snap.idle_twin.po)?;
+        self.sink.check(R::C17_copy, eq, || "two idle copies taken at the same moment differ after the original was driven on".into());
+        let solo = &mut self.solo;
+        let (m, tw, fr) = api(L::scanner_copy, || {
+            for (d, s) in solo.iter_mut().zip(snap.solo.iter()) {
+                *d = *s;
+            }
+            (snap.main, snap.twin, snap.fresh)
+        })?;
+        self.main = m;
+        self.twin = tw;
+        self.fresh = fr;
+        self.m_cc = snap.m_cc.clone();
+        self.m_pn = snap.m_pn.clone();
+        self.obs = snap.obs.clone();
+        let m = &self.main;
+        let eq = api(L::scanner_eq, || m.cc == snap.main.cc && m.pn == snap.main.pn && m.po == snap.main.po)?;
+        self.sink.check(R::C17_copy, eq, || "a restored copy does not compare equal to the checkpoint".into());
+        self.forks.clear();
+        self.cc_prev = None;
+        self.pn_seq = PnSeq::None;
+        for t in self.po_track.iter_mut() {
+            if t.is_some() {
+                self.p.rt_c12_abandoned += 1;
+            }
+            *t = None;
+        }
+        if self.obs.ch.iter().any(|h| h.in_flight()) || self.m_cc.last.iter().any(|x| x.is_some()) {
+            self.restored = true;
+        }
+        Ok(())
+    }
+
     fn do_fork(&mut self, k: u8, burst: &[[u8; 3]]) -> Result<(), Panicked> {
         self.p.forks += 1;
         self.sig.b(0x31);
@@ -758,6 +832,9 @@ impl<'a> Exec<'a> {
             self.sink.check(R::C17_copy, eq, || format!("poll({}): original returned {:?}, lockstep copy {:?}", c, r, rf));
         }
         self.tick_forks()?;
+        if self.restored {
+            self.w_c17 = true;
+        }
         // C12 round-trip tracker
         let now = self.now;
         let timeout = self.timeout;
@@ -1008,6 +1085,9 @@ impl<'a> Exec<'a> {
         }
         self.tick_forks()?;
 
+        if self.restored {
+            self.w_c17 = true;
+        }
         // ---- round-trip trackers
         self.track_c07(part, &r_cc)?;
         self.track_c10(part, &r_pn)?;
